@@ -203,6 +203,7 @@ PATHS = {
     "Move.id": ["N", "Q"], "Move.position": ["N", "Q"], "Move.range": ["R", "Q"],
     "Find.new": ["F", "Tg?", "R?"], "List.new": ["Tg", "F?", "Tgs"],
     "Count.new": ["F"], "Count.group_by": ["F", "Tg"], "CountGrouped.new": ["Tg", "F?"],
+    "Count.group_by_refilter": ["F", "Tg", "F"], "CountGrouped.refilter": ["Tg", "F", "F"],
     "RenamePlaylist.new": ["S", "S"], "LoadPlaylist.name": ["S", "R?"], "AddToPlaylist.new": ["S", "S", "N?"],
     "RemoveFromPlaylist.position": ["S", "N"], "RemoveFromPlaylist.range": ["S", "R"], "MoveInPlaylist.new": ["S", "N", "N"],
     "AlbumArt.new": ["S", "N?"], "AlbumArtEmbedded.new": ["S", "N?"],
